@@ -130,6 +130,7 @@ Definition c17_eng (prev : obs) (o : op) (cur : obs) : bool :=
       if mode_is prev RW then true else negb (is_ok (ores cur)) && unchanged prev cur
   | OSetRev _ =>
       if mode_is prev RW then true else negb (is_ok (ores cur)) && unchanged prev cur
+  | OGetRevFail => negb (is_ok (ores cur)) && unchanged prev cur
   | OOpenFail =>
       (* an open that fails leaves the replica as it was: closed stays closed, nothing is served *)
       negb (is_ok (ores cur)) && unchanged prev cur
